@@ -388,10 +388,77 @@ def _c03_table(h):
     def stub_invert(shape):
         return mk(shape.cid, z3.Not(shape.pos))
 
+    flips = {}
+
+    def stub_invert_inplace(shape):
+        flips[id(shape)] = flips.get(id(shape), 0) + 1
+        shape.pos = z3.Not(shape.pos)
+        return shape
+
     with h.stubs({(DefinedShape, "__float__"): stub_float, (DefinedShape, "box"): lambda shape: FB(), (DefinedShape, "__contains__"): stub_contains,
-                  (SimpleShape, "__invert__"): stub_invert}):
+                  (SimpleShape, "__invert__"): stub_invert, (SimpleShape, "invert"): stub_invert_inplace}):
         res = me._contains_shape(other)
     h.ensure("result-is-subset-by-the-lemma-table", SymBool(z3.BoolVal(bool(res)) == sub))
+    h.ensure("operands-not-left-inverted", flips.get(id(me), 0) % 2 == 0 and flips.get(id(other), 0) % 2 == 0)
+
+
+@proof("C11.contains-simple-frame", "C11", funcs=["shape.SimpleShape.__contains_simple", "shape.SimpleShape._contains_shape"], abstract=True, props=["C11", "C08"])
+def _c11_simple_frame(h):
+    """the simple-in-simple decision with raising nested queries: whatever exit is taken (normal or exceptional), the
+    two operands themselves have been inverted in place an even number of times (they may only be *copied* and the
+    copies inverted)."""
+    if not h.sym:
+        return
+    eng = Engine.cur
+    posA, posB = eng.fresh_bool("posA"), eng.fresh_bool("posB")
+    magA, magB = eng.fresh_real("magA", "F"), eng.fresh_real("magB", "F")
+    eng.assume(z3.And(magA.t > 0, magB.t > 0))
+    boxdisj = eng.fresh_bool("boxdisj")
+    flips = {}
+    keep = []
+
+    def mk(cid, pos):
+        o = object.__new__(SimpleShape)
+        o.cid, o.pos = cid, pos
+        jd = object.__new__(JordanCurve)
+        jd.cid = cid
+        o._SimpleShape__jordancurve = jd
+        keep.append(o)
+        return o
+
+    other, me = mk("A", posA.t), mk("B", posB.t)
+
+    class Boom(Exception):
+        pass
+
+    def stub_float(shape):
+        mag = magA if shape.cid == "A" else magB
+        return ITE(SymBool(shape.pos), mag, -mag)
+
+    class FB:
+        def __and__(self, o):
+            return None if bool(boxdisj) else self
+
+        def __bool__(self):
+            return True
+
+    def stub_contains(shape, what):
+        k = eng.choose(3, "query")
+        if k == 2:
+            raise Boom("nested query raised")
+        return k == 1
+
+    def stub_invert_inplace(shape):
+        flips[id(shape)] = flips.get(id(shape), 0) + 1
+        shape.pos = z3.Not(shape.pos)
+        return shape
+
+    with h.stubs({(DefinedShape, "__float__"): stub_float, (DefinedShape, "box"): lambda shape: FB(), (DefinedShape, "__contains__"): stub_contains,
+                  (SimpleShape, "__invert__"): lambda shape: mk(shape.cid, z3.Not(shape.pos)), (SimpleShape, "invert"): stub_invert_inplace}):
+        res, e = h.call(me._contains_shape, other)
+    h.ensure("only-the-callee-exception-propagates", e is None or isinstance(e, Boom))
+    h.ensure("operands-not-left-inverted-on-any-exit", flips.get(id(me), 0) % 2 == 0 and flips.get(id(other), 0) % 2 == 0,
+             detail=f"in-place inversions of (self, other) on exit: {flips.get(id(me), 0)}, {flips.get(id(other), 0)}; exception: {type(e).__name__ if e else None}")
 
 
 # ------------------------------------------------------------------ C03 connected-in-simple: soundness + restoration
